@@ -52,6 +52,9 @@ struct World {
 thread_local! {
     static WORLD: RefCell<World> = RefCell::new(World { active: false, released: BTreeSet::new(), arrived: BTreeMap::new(), polled: BTreeSet::new(), tasks: Vec::new(), task_panics: 0, handle_polls: 0, unwatched: 0, parked_released: BTreeSet::new() });
 }
+/// What `tokio::runtime::Handle::current().runtime_flavor()` answers (an environment answer owned by the harness):
+/// 0 = multi-thread, 1 = current-thread. The task-spawning programs are explored under both answers.
+pub static FLAVOR: std::sync::atomic::AtomicUsize = std::sync::atomic::AtomicUsize::new(0);
 pub fn active() -> bool {
     WORLD.with(|w| w.borrow().active)
 }
@@ -645,15 +648,20 @@ pub mod harness {
                             row[*s] = 1;
                         }
                     }
-                    let mut variants: Vec<(Vec<i64>, Option<usize>)> = vec![(row.clone(), None)];
+                    let mut variants: Vec<(Vec<i64>, Option<usize>, usize)> = vec![(row.clone(), None, 0)];
+                    if mask == 0 && p.id.contains("spawn") {
+                        // the same fault-free row with the runtime answering "current-thread" to a flavour query
+                        variants.push((row.clone(), None, 1));
+                    }
                     for &ps in p.panics {
                         if row[ps] == 0 {
                             let mut r2 = row.clone();
                             r2[ps] = 2;
-                            variants.push((r2, Some(ps % p.maxd)));
+                            variants.push((r2, Some(ps % p.maxd), 0));
                         }
                     }
-                    for (row, panic_step) in variants {
+                    for (row, panic_step, flavor) in variants {
+                        FLAVOR.store(flavor, SeqCst);
                         nrows += 1;
                         vrt::set_inp(&row);
                         let refv = vrt::run1(p.r);
@@ -728,7 +736,7 @@ pub mod harness {
                             None
                         };
                         let mut first_bad: Option<(String, Vec<usize>, Exec)> = None;
-                        if p.crosscheck && p.prune && mask == 0 && panic_step.is_none() {
+                        if p.crosscheck && p.prune && mask == 0 && panic_step.is_none() && flavor == 0 {
                             let mut o1: BTreeSet<(Option<String>, Vec<String>)> = BTreeSet::new();
                             let mut o2 = o1.clone();
                             let a = explore(p.mk, p.gates, p.spurious, p.cap, true, &inv, |ex, _| {
@@ -790,6 +798,7 @@ pub mod harness {
                                 }
                             }
                             if let Some(m) = msg {
+                                let m = if flavor == 1 { format!("{} [the runtime answers a flavour query with current-thread]", m) } else { m };
                                 nviol += 1;
                                 if first_bad.is_none() {
                                     first_bad = Some((m, script.to_vec(), ex.clone()));
